@@ -41,7 +41,9 @@ def windows(tier, grid):
     for w2 in (0.5, 1.0, 2.0, 3.0):
         for w0 in (0.0, 2.0, 3.0):
             out.append((w0, w0 + 6.0, w2))
-    return out if tier == 'thorough' else out[:1] + out[1::3]
+    # window limits that are not exactly representable as binary fractions
+    frac = [(0.0, 0.3, 0.1), (2.0, 2.3, 0.1), (0.0, 0.7, 0.1), (0.0, 0.15, 0.05), (1.0, 1.3, 0.3), (2.6, 3.1, 0.1), (0.1, 0.7, 0.2)]
+    return (out if tier == 'thorough' else out[:1] + out[1::3]) + frac
 
 
 def sig_assignments(tier):
@@ -52,6 +54,8 @@ def sig_assignments(tier):
         for vals in itertools.product(lat, repeat=len(s)):
             if all(not (s[i] == s[i - 1] and vals[i] < vals[i - 1]) for i in range(1, len(s))):
                 out.append((s, vals))
+    # profiles with two separate wells (below zero / below 80 % of the optimum in two pH intervals)
+    out += [('AAB', (-3.0, 7.0, 7.0)), ('ABH', (10.5, 6.5, 3.8)), ('ABH', (6.5, 3.8, 10.5)), ('AAB', (-3.0, 6.5, 7.0))]
     return out
 
 
@@ -74,7 +78,7 @@ def plan(tier, seed):
     return dict(shards=shards, exhaustive=True,
                 rule=('grids (min,max,step): min in {0,1,2.5} x span in {0.3,1,6,14} x step in {.05,.1,.25,.3,.5,.7,1,2} '
                       '(quick: 5 of the 12 (min,span) pairs); windows (w0, w0+6, w2) for w0 in {0,2,3}, w2 in {.5,1,2,3} plus '
-                      'the default; group multisets %s with pKa from a 4/8-value lattice; both reference states through '
+                      'the default and 7 windows with decimal-fraction limits (0-0.3, 2-2.3, 2.6-3.1 ...); group multisets %s with pKa from a 4/8-value lattice; both reference states through '
                       'the API; -g/-w passed as options for the written file. non-trivial = distinct (multiset, '
                       'assignment, grid, window) combinations') % ([s for s, _ in sa][-3:],),
                 bounds=dict(grids=len(gs), assignments=len(sa)),
@@ -247,9 +251,27 @@ def run_case(case, ctx, acc):
     oracle(factory, case, acc, grid, wins)
     if case['kind'] == 'real':      # the same relations for every single conformation (API level)
         m = factory(())
+        from . import c09
         for cname in m.conformation_names:
             oracle(factory, dict(case, conformation=cname), acc, grid, [], api_mol=m, cname=cname)
             acc.n += 1
+            # the file written for this conformation carries this conformation's two profiles
+            p = pk.parse_pka(c09.conf_text(m, cname))
+            g0 = tuple(m.options.grid)
+            cp = dict((round(r[0], 2), r) for r in m.get_charge_profile(conformation=cname, grid=g0))
+            fp = dict((round(a, 2), d) for a, d in m.get_folding_profile(conformation=cname, grid=g0)[0])
+            for ph, qu, qf in p['charge']:
+                r = cp.get(round(ph, 2))
+                if r is not None and (abs(r[1] - qu) > 0.00501 or abs(r[2] - qf) > 0.00501):
+                    acc.viols.append(Viol(dict(case, conformation=cname), 'linkage', 'written-charge-table-of-other-conformation',
+                                          '%s pH %.2f: printed (%.2f, %.2f), charge profile of this conformation (%r, %r)' % (cname, ph, qu, qf, r[1], r[2])))
+                    break
+            for ph, dg in p['folding']:
+                d = fp.get(round(ph, 2))
+                if d is not None and abs(d - dg) > 0.00501:
+                    acc.viols.append(Viol(dict(case, conformation=cname), 'linkage', 'written-folding-table-of-other-conformation',
+                                          '%s pH %.2f: printed %.2f, folding profile of this conformation %r' % (cname, ph, dg, d)))
+                    break
     acc.n += 1
     acc.nontrivial.add(jhash(case))
     acc.outcomes['%s/%d' % (case['kind'], len(pf.ref_grid(*grid)))] += 1
